@@ -401,6 +401,60 @@ def rule_endfill(ctx):
                "{end_day}{end_hour} after 28 February moved the end to 4 March (31 days), {end_month}{end_day} across New Year by 366 days",
                node=ro[0], func=f, witness=None if okcal else {"template": "{year}{month}{day}{hour}-{end_day}{end_hour}", "period": "2017-02-28 22h .. 2017-03-01 02h",
                                                              "parsed end": "2017-03-04 02h"})
+    # an end given by {end_doy} without its year: a day of year that precedes the start is the day of the NEXT year and has to be counted
+    # there (day 001 after 31 December; leap years shift the date of a day number) - the generic roll-over adds one DAY (the next coarser
+    # entry of a table that does not know doy) or nothing at all
+    fp_ = f.params[1]
+    doy_ifs = []
+    for st in flow.stmts:
+        if isinstance(st, ast.If) and any(isinstance(n_, ast.Compare) and {"end_date", "start_date"} <= {x_.id for x_ in ast.walk(n_) if isinstance(x_, ast.Name)} for n_ in ast.walk(st.test)):
+            t_ = str(norm(flow.resolve(st.test, at=st, depth=2, stop=(fp_,)))).replace('"', "'")
+            if "end_doy" in t_:
+                doy_ifs.append((st, t_))
+    ok_doy = False
+    fact_doy = "no branch for an end_doy without year that precedes the start"
+    if len(doy_ifs) == 1:
+        st, t_ = doy_ifs[0]
+        mv = [s_ for s_ in st.body if isinstance(s_, ast.Assign) and norm(s_.targets[0]) == "end_date"]
+        no_year = "end_year" in t_ and "end_year2" in t_
+        if len(mv) == 1 and len(st.body) == 1:
+            v_ = str(norm(flow.resolve(mv[0].value, at=mv[0], depth=2, stop=(fp_, "end_date", "start_date")))).replace(" ", "").replace('"', "'")
+            doyv = ("%s.get('end_doy',None)" % fp_, "%s.get('end_doy')" % fp_, "%s['end_doy']" % fp_)
+            forms = ["end_date.replace(year=start_date.year+1,month=1,day=1)+timedelta(days=int(%s)-1)" % d_ for d_ in doyv]
+            forms += ["timedelta(days=int(%s)-1)+end_date.replace(year=start_date.year+1,month=1,day=1)" % d_ for d_ in doyv]
+            if v_ not in forms:
+                raise AnalysisError("_retrieve_time_coverage: end for an end_doy in the next year %s not understood" % v_[:100])
+            ok_doy = no_year
+            fact_doy = "if %s: %s" % (t_[:110], norm(mv[0])[:110])
+        else:
+            raise AnalysisError("_retrieve_time_coverage: the branch for an end_doy that precedes the start is not a single re-binding of end_date")
+    elif len(doy_ifs) > 1:
+        raise AnalysisError("_retrieve_time_coverage: several branches test end_doy against the start")
+    ctx.ob("FileSet._retrieve_time_coverage.rollover.doy", ok_doy, fact_doy,
+           "end < start with {end_doy} and no end year: end = 1 January of the year after the start + (end_doy - 1) days, time of day kept",
+           node=doy_ifs[0][0] if doy_ifs else (ro[0] if ro else f.node), func=f,
+           witness=None if ok_doy else {"template": "{year}{doy}_{hour}{minute}-{end_doy}_{end_hour}{end_minute}", "period": "2016-12-31 23:10 .. 2017-01-01 01:05",
+                                        "parsed end": "2016-01-02 01:05"})
+    # the merged fields may name a day that the month / year of the START does not have (the 31st, 29 February): the end then lies in the
+    # next month / year - datetime() must not be allowed to raise before the roll-over is tried
+    from ..flow import lexically_inside
+    tr, fld = lexically_inside(e0, (ast.Try,))
+    retry = False
+    fact_v = "datetime(**merged fields) outside any try"
+    if tr is not None and fld == "body":
+        hs = [h_ for h_ in tr.handlers if h_.type is not None and str(norm(h_.type)) in ("ValueError", "(ValueError, OverflowError)")]
+        if len(hs) != 1:
+            raise AnalysisError("_retrieve_time_coverage: handler around datetime(**end fields) not understood")
+        again = [s_ for s_ in walk_no_nested(hs[0]) if isinstance(s_, ast.Assign) and norm(s_.targets[0]) == "end_date" and calls_in(s_.value, ("datetime", "DateOffset", "replace"))]
+        reraise = [s_ for s_ in walk_no_nested(hs[0]) if isinstance(s_, ast.Raise)]
+        if not again:
+            raise AnalysisError("_retrieve_time_coverage: the ValueError handler does not build the end again")
+        retry = bool(reraise)           # an end that is invalid whatever the month / year is still rejected
+        fact_v = "try: %s except ValueError: ... %s" % (norm(e0)[:50], norm(again[0])[:80])
+    ctx.ob("FileSet._retrieve_time_coverage.merge.next_period", retry, fact_v,
+           "a day that does not exist in the start's month / year is tried in the next one (superior period of a month / a year), anything else is re-raised: "
+           "{end_month}{end_day} = 0229 after a start in December 2019 is 29 February 2020", node=e0, func=f,
+           witness=None if retry else {"template": "{year}{month}{day}-{end_month}{end_day}", "name": "20191201-0229", "raises": "ValueError: day is out of range for month"})
     # the superior unit
     g = ctx.func(FILESET, "FileSet._get_superior_time_resolution")
     gflow = Flow(g)
@@ -418,6 +472,41 @@ def rule_endfill(ctx):
     oks = seq == "list(FileSet._temporal_resolution.values())" and sel in ("max", "min") and "_temporal_resolution[" in norm(arg)
     coarsest = sel == "max"
     rets = [r_ for r_ in gflow.stmts if isinstance(r_, ast.Return) and r_.value is not None and not (isinstance(r_.value, ast.Constant) and r_.value.value is None)]
+    # the fractions of a second (decisecond ... microsecond) are alternative notations, not nested units: an end given by one of them
+    # alone wraps at the next SECOND, not at the previous entry of the table
+    from ..flow import guard_chain
+    SEC = ("FileSet._temporal_resolution['second']", "self._temporal_resolution['second']", "cls._temporal_resolution['second']")
+    decisive = str(norm(gflow.resolve(idx[0].args[0], at=idx[0], depth=1))).replace('"', "'")
+    special = []
+    for r_ in list(rets):
+        gc_ = guard_chain(r_, implicit=False)
+        tests = [(str(norm(gflow.resolve(t_, at=t_, depth=2, stop=(g.params[0], iname)))).replace('"', "'"), pol_) for t_, pol_ in gc_]
+        if any(any(sx in t_ for sx in SEC) for t_, _ in tests):
+            special.append((r_, tests))
+            rets.remove(r_)
+    arg_txt = str(norm(idx[0].args[0])).replace('"', "'")
+    ok_sub = False
+    sub_fact = "none: a sub-second end field takes the previous table entry as its superior unit"
+    if len(special) == 1:
+        r_, tests = special[0]
+        val = str(norm(r_.value)).replace('"', "'").replace(" ", "")
+        val_ok = val in [sx.replace(" ", "") for sx in SEC] + ["pd.Timedelta(%s).to_pytimedelta()" % sx.replace(" ", "") for sx in SEC] + ["timedelta(seconds=1)"]
+        # the decisive value: the argument of .index(...), its definition, or the table read back at that index (L[L.index(v)] is v)
+        seq_txt = str(norm(idx[0].func.value)).replace(" ", "").replace('"', "'")
+        seq_res = str(norm(gflow.resolve(idx[0].func.value, at=idx[0], depth=2))).replace(" ", "").replace('"', "'")
+        dec_forms = {arg_txt.replace(" ", ""), decisive.replace(" ", "")} | {"%s[%s]" % (q_, iname) for q_ in (seq_txt, seq_res)}
+        t_ok = len(tests) == 1 and tests[0][1] and any(tests[0][0].replace(" ", "") in ("%s<%s" % (x_, sx.replace(" ", "")), "%s>%s" % (sx.replace(" ", ""), x_))
+                                                     for sx in SEC for x_ in dec_forms)
+        if not t_ok and len(tests) == 1:
+            raise AnalysisError("_get_superior_time_resolution: guard %s of the one-second return not understood" % tests[0][0][:80])
+        ok_sub = val_ok and t_ok
+        sub_fact = "if %s: return %s" % (tests[0][0] if tests else "?", norm(r_.value))
+    elif len(special) > 1:
+        raise AnalysisError("_get_superior_time_resolution: several returns guarded by the resolution of a second")
+    ctx.ob("FileSet._get_superior_time_resolution.subsecond", ok_sub, sub_fact,
+           "a decisive end field finer than a second has the second as its superior unit ({end_millisecond} alone: 23:59:59.900-100 ends at 00:00:00.100, not 10 ms later)",
+           node=special[0][0] if special else ist, func=g,
+           witness=None if ok_sub else {"template": "{year}{month}{day}_{hour}{minute}{second}{millisecond}-{end_millisecond}", "file": "23:59:59.900 - .100", "parsed end": "23:59:59.110"})
     sup_txt = None
     if len(rets) == 1:
         rv = gflow.resolve(rets[0].value, at=rets[0], depth=3, stop=(iname,))
@@ -626,6 +715,32 @@ def rule_reject(ctx):
     oku = oku and len(rets) == 1 and stmt_before(g.node, un[0], rets[0])
     ctx.ob("FileSet.get_filename.unfilled", oku, "%s" % (norm(un[0].test) if un else None), "a generated name that still contains template characters raises UnfilledPlaceholderError before it is returned",
            node=un[0] if un else g.node, func=g)
+    # ... which only sees the characters of _special_chars: a user placeholder left unfilled is replaced by its REGEX, and `.+`, `noaa.`,
+    # `^noaa18$` contain none of them.  The regex of an unfilled placeholder may stand for its filling only if it is a plain text.
+    need = set(".+^$)]}")
+    pre = []
+    for lp in [st for st in walk_no_nested(g.node) if isinstance(st, ast.For)]:
+        for st in walk_no_nested(lp):
+            if isinstance(st, ast.If) and any(isinstance(s_, ast.Raise) and "UnfilledPlaceholderError" in norm(s_.exc) for s_ in st.body):
+                chars = set()
+                for c_ in ast.walk(st.test):
+                    if isinstance(c_, ast.Constant) and isinstance(c_.value, str):
+                        chars |= set(c_.value)
+                pre.append((lp, st, chars))
+    okp = False
+    factp = "no check of the placeholders' own regexes"
+    if len(pre) == 1:
+        lp, st, chars = pre[0]
+        fmt_calls = [c_ for c_ in calls_in(g.node, "format") if any(k_.arg is None for k_ in c_.keywords)]
+        before = bool(fmt_calls) and stmt_before(g.node, lp, enclosing_stmt(fmt_calls[0]))
+        mentions_fill = any(isinstance(n_, ast.Name) and n_.id == g.params[3] for n_ in ast.walk(st.test))
+        okp = need <= chars and before and mentions_fill
+        factp = "for %s in %s: if %s: raise UnfilledPlaceholderError" % (norm(lp.target), norm(lp.iter)[:60], norm(st.test)[:90])
+    elif len(pre) > 1:
+        raise AnalysisError("get_filename: several loops raise UnfilledPlaceholderError")
+    ctx.ob("FileSet.get_filename.unfilled.regex", okp, factp, "before the template is filled: a placeholder of the template that the caller did not fill and whose "
+           "regex contains a regex character (. + ^ $ and the closing brackets included) raises UnfilledPlaceholderError", node=pre[0][1] if pre else g.node, func=g,
+           witness=None if okp else {"placeholder": {"sat": ".+"}, "get_filename(t, fill={})": "/data/.+/20170102.nc"})
 
 
 def rule_anchor(ctx, rule="C01.anchor"):
@@ -770,15 +885,48 @@ def rule_regexfill(ctx):
         while isinstance(parent(top), ast.BinOp) and isinstance(parent(top).op, ast.Add) or isinstance(parent(top), ast.JoinedStr) or isinstance(parent(top), ast.FormattedValue):
             top = parent(top)
         dcs.append(_V(top))
-    if not dcs:
-        raise AnalysisError("_fill_placeholders: the use of _remove_group_capturing for the repeated placeholders was not found")
-    at_site = all(grouped(d_.value) for d_ in dcs)
-    okg = at_site != in_helper and (at_site or in_helper)
-    ctx.ob("FileSet._fill_placeholders.repetition_grouped", at_site or in_helper, "inserted for a repetition: %s; helper returns %s" % (
-        [str(norm(d_.value))[:70] for d_ in dcs], [str(norm(r_.value))[:50] for r_ in stripped]),
-           "'(?:' + <regex without the named group> + ')': the repetition of a placeholder with a value list stays one alternative of the path regex",
-           node=dcs[0].value, func=fp, witness=None if (at_site or in_helper) else {"template": "/data/{sat}/{year}{month}{day}_{sat}.nc", "placeholder": {"sat": ["noaa18", "metopa"]},
-                                                                              "regex": "^/data/(?P<sat>noaa18|metopa)/..._noaa18|metopa\\.nc$"})
+    # ... or the repetition is a back-reference to the named group of the first occurrence: (?P=<name>)
+
+    def backref(e, key):
+        parts = []
+
+        def flat(n_):
+            if isinstance(n_, ast.BinOp) and isinstance(n_.op, ast.Add):
+                flat(n_.left)
+                flat(n_.right)
+            else:
+                parts.append(n_)
+        if isinstance(e, ast.JoinedStr):
+            parts.extend(v_.value if isinstance(v_, ast.FormattedValue) else v_ for v_ in e.values)
+        else:
+            flat(e)
+        return len(parts) == 3 and isinstance(parts[0], ast.Constant) and parts[0].value == "(?P=" and str(norm(parts[1])) == key \
+            and isinstance(parts[2], ast.Constant) and parts[2].value == ")"
+    brefs = []
+    for dc_ in [n_ for n_ in walk_no_nested(fp.node) if isinstance(n_, ast.DictComp)]:
+        if any("count" in str(norm(i_)) for g_ in dc_.generators for i_ in g_.ifs) and backref(dc_.value, str(norm(dc_.key))):
+            brefs.append(dc_)
+    if not dcs and not brefs:
+        # a loop over the repeated names that builds the back-reference for each: v = f"(?P={name})" with `name` the loop variable
+        for lp_ in [n_ for n_ in walk_no_nested(fp.node) if isinstance(n_, ast.For) and isinstance(n_.target, ast.Name)]:
+            for st_ in lp_.body:
+                if isinstance(st_, ast.Assign) and len(st_.targets) == 1 and isinstance(st_.targets[0], ast.Name) and backref(st_.value, lp_.target.id):
+                    brefs.append(st_)
+    if not dcs and not brefs:
+        raise AnalysisError("_fill_placeholders: what is inserted for the repeated placeholders (helper call or back-reference) was not found")
+    at_site = bool(dcs) and all(grouped(d_.value) for d_ in dcs)
+    one_atom = bool(brefs) or at_site or (bool(dcs) and in_helper)
+    shown = [str(norm(d_.value))[:70] for d_ in dcs] + [str(norm(d_.value))[:70] for d_ in brefs]
+    anchor = dcs[0].value if dcs else brefs[0]
+    ctx.ob("FileSet._fill_placeholders.repetition_grouped", one_atom, "inserted for a repetition: %s; helper returns %s" % (shown, [str(norm(r_.value))[:50] for r_ in stripped]),
+           "one atom of the path regex - '(?:' + <regex without the named group> + ')' or a back-reference: the repetition of a placeholder with a value list stays one alternative",
+           node=anchor, func=fp, witness=None if one_atom else {"template": "/data/{sat}/{year}{month}{day}_{sat}.nc", "placeholder": {"sat": ["noaa18", "metopa"]},
+                                                                 "regex": "^/data/(?P<sat>noaa18|metopa)/..._noaa18|metopa\\.nc$"})
+    ctx.ob("FileSet._fill_placeholders.repetition_same_value", bool(brefs) and not dcs, "inserted for a repetition: %s" % shown,
+           "(?P=<name>): every further occurrence must repeat what the first one captured - an independent copy of the regex accepts a name that fills one "
+           "placeholder with two values and reports the first (a name that does not match the template is rejected, not mis-parsed)",
+           node=anchor, func=fp, witness=None if (brefs and not dcs) else {"template": "/data/{year}/{month}/{year}{month}{day}_{hour}.nc", "name": "/data/2016/03/20170102_03.nc",
+                                                                           "parsed start": "2016-03-02 03:00", "expected": "ValueError"})
     # get_filename fills a user placeholder with the value of the same helper: it must stay the PLAIN value there
     gfn = ctx.func(FILESET, "FileSet.get_filename")
     uses_helper = bool(calls_in(gfn.node, "_remove_group_capturing"))
